@@ -518,6 +518,16 @@ func policyMatrix(run *vk.Run, id *age.X25519Identity, seed int64) {
 				if !run.Thorough() {
 					kinds = pickS(kinds, 5, n+len(vname))
 					pols = pickS(pols, 4, n)
+					// the styles that switch between Read and io.Copy or hand over buffers of more than a chunk are always in
+					for _, must := range []string{"sniffcopy", "readfrom", "buf1048576", "sniff512copybuf"} {
+						have := false
+						for _, p := range pols {
+							have = have || p == must
+						}
+						if !have {
+							pols = append(pols, must)
+						}
+					}
 				}
 				for _, kind := range kinds {
 					if kind == "onebyte" && len(file) > 100000 && armored {
